@@ -591,7 +591,7 @@ func ruleMapRangeReturnFile(c *Ctx, r *Report, rel string, files ...string) {
 }
 
 func ruleWildcards(c *Ctx, r *Report) {
-	r.Rule("R-WILDCARD", "the path comparison helpers compare names/key values with the wildcard \"*\" on the side(s) that may carry it", 4)
+	r.Rule("R-WILDCARD", "the path comparison helpers compare names/key values with the wildcard \"*\" on the side(s) that may carry it", 3)
 	check := func(fname string, needs ...string) {
 		f := c.MustFunc(r, "util", fname)
 		if f == nil {
